@@ -68,6 +68,7 @@ def r_power(prog: Program, col: Collector, refs: Refs, cat: Catalogue, rule: str
     # the missing-variable branch: `<reduced vars> - <operand>.input_vars` is non-empty
     unrelated = truthy_local(helper, lambda v: isinstance(v, ast.BinOp) and isinstance(v.op, ast.Sub) and isinstance(v.right, ast.Attribute) and v.right.attr in ("input_vars", "inputs"))
     sites.append((helper, helper.positional[0], {helper.positional[1]}, set(), {unrelated}, set(), [o.fq for o in assoc]))
+    count_sets = [(helper, unrelated)]
     f = prog.funcs.get("funsor.constant::eager_reduce_add")
     if f is not None:
         ops_ = set()
@@ -78,6 +79,7 @@ def r_power(prog: Program, col: Collector, refs: Refs, cat: Catalogue, rule: str
                     ops_ |= {o.fq for o in cat.ops_under(ref)}
         const_part = truthy_local(f, lambda v: isinstance(v, ast.BinOp) and isinstance(v.op, ast.BitAnd) and any(isinstance(x, ast.Attribute) and x.attr == "const_vars" for x in ast.walk(v)))
         sites.append((f, f.positional[0], {f.positional[1]}, set(), {const_part}, set(), sorted(ops_)))
+        count_sets.append((f, const_part))
     f = prog.funcs.get("funsor.sum_product::eager_markov_product")
     if f is not None:
         time_p = f.positional[3]
@@ -98,6 +100,24 @@ def r_power(prog: Program, col: Collector, refs: Refs, cat: Catalogue, rule: str
                     if isinstance(x, ast.Tuple) and len(x.elts) == 2 and all(isinstance(e, ast.Name) for e in x.elts) and not any(isinstance(e, ast.Tuple) for e in x.elts):
                         dens = {x.elts[1].id}
         sites.append((f, None, dens or {"log_density"}, set(), {is_diag}, {mentions}, ["funsor.ops.builtin.add"]))
+    # the count that compensates ranges over exactly the set of dropped variables (the local the branch condition tests)
+    for f_, names_pred in count_sets:
+        cond_names = {n.targets[0].id for n in walk_no_nested(f_.node) if isinstance(n, ast.Assign) and len(n.targets) == 1 and isinstance(n.targets[0], ast.Name)
+                      and names_pred(ast.Name(id=n.targets[0].id, ctx=ast.Load()))}
+        for n in walk_no_nested(f_.node):
+            if isinstance(n, ast.Assign) and len(n.targets) == 1 and isinstance(n.targets[0], ast.Name):
+                comps = [x for x in ast.walk(n.value) if isinstance(x, (ast.ListComp, ast.GeneratorExp)) and len(x.generators) == 1
+                         and any(isinstance(y, ast.Attribute) and y.attr in ("size", "num_elements") for y in ast.walk(x.elt))]
+                for cp in comps:
+                    it = cp.generators[0].iter
+                    construct = f"{f_.fq}::count over {norm(it)}"
+                    if isinstance(it, ast.Name) and it.id in cond_names:
+                        col.ok(construct, "the compensating count ranges over the dropped variables", f_.loc(n))
+                    elif isinstance(it, ast.Name) and it.id in f_.params:
+                        col.violation(construct, f"the compensating count ranges over `{it.id}` (all reduced variables) instead of the dropped ones "
+                                      f"({', '.join(sorted(cond_names))}): variables that the operand does mention are counted twice", f_.loc(n))
+                    else:
+                        col.unresolved(construct, "count iterates an unrecognised set", f_.loc(n))
     col.cur.analysed["sites"] = [s[0].fq for s in sites]
     for f, opparam, operands, counts, at, af, candidates in sites:
         for ofq in candidates:
@@ -812,4 +832,44 @@ def r_pushdown(prog: Program, col: Collector, refs: Refs, cat: Catalogue, rule: 
                 col.violation(construct, f"the reduction over some variables is moved into a subset of the operands (`{norm(sh)}`) without testing that ({R}, {B}) is a declared "
                               f"distributive pair: the interpretation passes e.g. {R} is {B} (sum over i of (x + t[i])) to this rule, and the operands that do not mention the variable "
                               "lose their n-fold multiplicity", f.loc(st))
+
+
+# ---------------------------------------------------------------------- R02.7 same-op contraction: every operand is reduced over all variables
+
+
+def r_same_op(prog: Program, col: Collector, refs: Refs, cat: Catalogue, rule: str):
+    """sum_i (a + b) = sum_i a + sum_i b holds with each operand reduced over ALL of i - an operand that does not mention i
+    then picks up its n-fold multiplicity inside `reduce` (R01.4).  Restricting the variables per operand (`V & v.input_vars`)
+    silently drops that multiplicity for add / mul / logaddexp."""
+    col.rule(rule, "in the red_op-is-bin_op branch every operand is reduced over all the reduced variables", floor=1)
+    n = 0
+    for r in cat.registrations:
+        f = r.target
+        if f is None or not r.pattern or refs.resolve(r.pattern[0]) != "funsor.cnf.Contraction" or len(f.positional) < 3 or isinstance(f.node, ast.Lambda):
+            continue
+        if not r.registry.startswith("funsor.interpretations."):
+            continue
+        R, B, V = f.positional[:3]
+        for st in walk_no_nested(f.node):
+            if not (isinstance(st, ast.If) and isinstance(st.test, ast.Compare) and len(st.test.ops) == 1 and isinstance(st.test.ops[0], ast.Is)
+                    and {norm(st.test.left), norm(st.test.comparators[0])} == {R, B}):
+                continue
+            for c in [x for b in st.body for x in ast.walk(b) if isinstance(x, ast.Call) and isinstance(x.func, ast.Attribute) and x.func.attr == "reduce" and len(x.args) == 2]:
+                if norm(c.args[0]) not in (R, B):
+                    continue
+                n += 1
+                construct = f"{f.fq}::{norm(c)}"
+                a = c.args[1]
+                if isinstance(a, ast.Name) and a.id == V:
+                    stores = [x for b in st.body for x in ast.walk(b) if isinstance(x, ast.Name) and x.id == V and isinstance(x.ctx, ast.Store)]
+                    col.check(not stores, construct, f"each operand is reduced over the rule's own `{V}`", f"`{V}` is re-bound inside the same-op branch before the operands are reduced", f.loc(c))
+                else:
+                    restricted = any(isinstance(x, ast.Attribute) and x.attr in ("input_vars", "inputs") for x in ast.walk(a)) or isinstance(a, ast.BinOp)
+                    if restricted:
+                        col.violation(construct, f"the operands are reduced over `{norm(a)}` instead of all of `{V}`: an operand that does not mention a reduced variable "
+                                      "is not multiplied by the number of points (sum_i (x + t[i]) becomes x + sum t)", f.loc(c))
+                    else:
+                        col.unresolved(construct, f"variables argument `{norm(a)}` not recognised", f.loc(c))
+    if n == 0:
+        col.unresolved("funsor.cnf::same-op branch", "no `if red_op is bin_op:` branch reducing the operands found", "funsor/cnf.py")
 
